@@ -10,10 +10,11 @@ import (
 )
 
 type propDef struct {
-	gen   func(tier string, seed uint64) []genOut
-	reuse bool
-	rule  string
-	extra func(e *Engine) []Violation // harness-only legs
+	gen       func(tier string, seed uint64) []genOut
+	reuse     bool
+	alsoReuse bool // run the cases a second time with objects handed back as prealloc
+	rule      string
+	extra     func(e *Engine) []Violation // harness-only legs
 }
 
 var props = map[string]*propDef{}
@@ -35,7 +36,7 @@ func init() {
 	props["C05"] = &propDef{gen: genC05, rule: "iterator scripts (Next/Advance with non-decreasing targets/walk, 8 flag combinations, exclusion nil/empty/partial/all, ReplaceActual) on built (fixed chunk sizes 1-5) and merged (1-hit) segments vs Lean Spec.iterRun; non-trivial = script has an Advance, a non-empty exclusion and a multi-chunk term"}
 	props["C06"] = &propDef{gen: genC06, rule: "stored-field visits in random orders with early stop on built/loaded/merged segments incl. >128 documents, plus a sweep of the size of block 1 across the reused decompression buffer's capacity; non-trivial = more than one 128-document block"}
 	props["C07"] = &propDef{gen: genC07, rule: "doc-value readers on random field subsets/orders, visiting forwards, backwards, randomly and ping-pong across 1024-document chunk edges; non-trivial = more than one doc-value chunk, or a small merged/built case with documents"}
-	props["C08"] = &propDef{gen: genC08, rule: "dictionary iterators with nil/non-empty [start,end) bounds and any/prefix automata, Contains and PostingsList on built and merged (1-hit mixed) segments, unknown fields and terms; non-trivial = merged segment with >1 document"}
+	props["C08"] = &propDef{gen: genC08, alsoReuse: true, rule: "dictionary iterators with nil/non-empty [start,end) bounds and any/prefix automata, Contains and PostingsList on built and merged (1-hit mixed) segments, unknown fields and terms; non-trivial = merged segment with >1 document"}
 	props["C11"] = &propDef{gen: genC11, rule: "CRC-32 of all bytes but the last four, footer fields vs loaded segment, returned byte count, byte-identical re-persist; built, merged, loaded (mem, file)"}
 	props["C13"] = &propDef{gen: genC13, reuse: true, rule: "lookup sequences over three segments (general and 1-hit encodings) where each lookup receives an earlier PostingsList / PostingsIterator as prealloc (none / most recent / random earlier) and dictionaries and doc-value readers are kept across lookups; transcript vs Lean Spec (= fresh objects)"}
 	props["C16"] = &propDef{gen: genC16, rule: "CollectionStats of every known, unknown and empty field name on built, merged, loaded segments with Length = Σ freq; vs Lean Spec.stats; non-trivial = merged with survivors"}
@@ -105,6 +106,10 @@ func cmdCheck(args []string) int {
 			}
 		}
 		vs = append(vs, e.runSpecDiff(cases, pd.reuse)...)
+		if pd.alsoReuse && len(vs) == 0 {
+			vs = append(vs, e.runSpecDiff(cases, true)...)
+			e.count("second-pass-with-reused-objects", len(cases))
+		}
 	}
 	if pd.extra != nil {
 		vs = append(vs, pd.extra(e)...)
